@@ -287,7 +287,7 @@ def cross_module_backlink(draw, m):
     ]
     # the same schema as an explicit DDL script (a creation order that does not go through the
     # SDL planner), for checks that must not build their input with the code under test
-    ddl = (f'create module {m} if not exists; create module {lib} if not exists; '
+    ddl = (f'create module default if not exists; create module {m} if not exists; create module {lib} if not exists; '
            f'create abstract type {lib}::Authored; '
            f'create type {m}::BUser {{ create property bn -> str; }}; '
            f'alter type {lib}::Authored {{ create link author -> {m}::BUser; create property ttl -> str; }}; '
